@@ -105,7 +105,7 @@ def gen_case(rng, thorough, kind=None):
         caps = [caps[0]] * nb          # the real pipeline keeps one cap for all batches
     return {'kind': kind, 'names': names, 'label': label, 'target_only': to, 'heuristic': heuristic, 'caps': caps,
             'nrows': rng.choice([4, 6, 9, 15, 25]), 'dseed': rng.randrange(2 ** 31), 'ncpus': rng.choice([1, 1, 2, 3, 7]),
-            'columns_as': rng.choice(['index', 'index', 'list', 'tuple', 'array'])}
+            'columns_as': rng.choice(['index', 'index', 'list', 'tuple', 'array']), 'debug_logging': rng.random() < 0.2}
 
 
 def gen_wide(rng):
@@ -214,6 +214,16 @@ def run_impl(case):
     import pandas as pd
     from outrank import core_ranking as cr
     logging.getLogger('syn-logger').setLevel(logging.CRITICAL)
+    if case.get('debug_logging'):
+        # the verbosity of the package's loggers is environment: what is ranked must not depend on it
+        saved_levels = {n: logging.getLogger(n).level for n in ('outrank', 'outrank.core_ranking', 'outrank.algorithms.importance_estimator')}
+        for n in saved_levels:
+            logging.getLogger(n).setLevel(logging.DEBUG)
+        try:
+            return run_impl({k: v for k, v in case.items() if k != 'debug_logging'})
+        finally:
+            for n, lv in saved_levels.items():
+                logging.getLogger(n).setLevel(lv)
     if case.get('prelude'):                   # history: the same process first evaluated this configuration
         run_impl(case['prelude'])
     obs = {'error': None, 'batches': []}
